@@ -12,6 +12,11 @@ open WS WS.Model WS.Lemmas.ShortWrites
 theorem lock_scopes : Gen.sendLoopUnderLock = true ∧ Gen.recvUnderReadlock = true ∧ Gen.frameUnderLock = true := by
   decide
 
+/-- … and "the default thread-safe configuration": both ways of building the object — `WebSocket()` and the documented
+    factory `create_connection()` — install real locks unless the caller says otherwise (generated from the defaults). -/
+theorem locks_by_default : Gen.multithreadDefaultInit = true ∧ Gen.multithreadDefaultFactory = true := by
+  decide
+
 /-- **C12_short_writes** — however the transport accepts bytes (any cyclic pattern of accepted sizes, each
     clipped to 1..remaining), the write loop returns normally and the bytes added to the wire are exactly
     `data` — for every `data`, every pattern, every starting state of an open socket. -/
